@@ -475,11 +475,13 @@ class Inliner(object):
             return (h, env) if env is not None else None
         return None
 
-    def instantiate(self, h, env, caller_names):
+    def instantiate(self, h, env, caller_names, target=None):
         rename = {}
         for v in sorted(h.locals):
             if v in env:
                 continue
+            if v == target:
+                continue        # `v = h(a)` with a helper local also called v: writing v early is harmless, the call does not read v
             if v in caller_names:
                 rename[v] = '%s_%s' % (v, h.fn.name.strip('_'))
         pre = []
@@ -535,7 +537,11 @@ class Inliner(object):
         h, env = m
         if ctxk != 'return' and h.has_return and not h.tail:
             return None
-        pre, body = self.instantiate(h, env, caller_names)
+        target = None
+        if ctxk == 'assign' and len(st.targets) == 1 and isinstance(st.targets[0], ast.Name) \
+                and not any(isinstance(x, ast.Name) and x.id == st.targets[0].id for x in ast.walk(call)):
+            target = st.targets[0].id
+        pre, body = self.instantiate(h, env, caller_names, target)
         self.inlined.add(h.fn.name)
         ln = st.lineno
 
@@ -700,8 +706,14 @@ def _immutable(e):
 READ_METHODS = {'get', 'items', 'keys', 'values', 'index', 'count', 'copy', 'join', 'match', 'search', 'fullmatch', 'startswith', 'endswith'}
 
 
-def _readonly_uses(tree, name):
-    """every use of the module-level name only reads it: membership, subscript load, iteration, read methods"""
+def _readonly_uses(tree, name, depth=0):
+    """every use of the name only reads it: membership, subscript load, iteration, read methods, or a local alias used that way"""
+    fn_of = {}
+    if depth == 0:
+        for fn in ast.walk(tree):
+            if isinstance(fn, ast.FunctionDef):
+                for n in ast.walk(fn):
+                    fn_of.setdefault(id(n), fn)        # outermost function wins; good enough for alias scoping
     for n in ast.walk(tree):
         for c in ast.iter_child_nodes(n):
             if isinstance(c, ast.Name) and c.id == name and isinstance(c.ctx, ast.Load):
@@ -716,6 +728,16 @@ def _readonly_uses(tree, name):
                 if isinstance(n, ast.Call) and isinstance(n.func, ast.Name) and n.func.id in ('len', 'sorted', 'enumerate', 'tuple', 'frozenset', 'set',
                                                                                              'list', 'dict', 'min', 'max', 'any', 'all', 'sum', 'zip'):
                     continue
+                if depth == 0 and isinstance(n, ast.Assign) and n.value is c and len(n.targets) == 1 and isinstance(n.targets[0], ast.Name) \
+                        and id(n) in fn_of:
+                    f = fn_of[id(n)]
+                    alias = n.targets[0].id
+                    mutated = any((isinstance(x, (ast.Subscript, ast.Attribute)) and isinstance(x.ctx, (ast.Store, ast.Del))
+                                   and isinstance(x.value, ast.Name) and x.value.id == alias)
+                                  or (isinstance(x, ast.Call) and isinstance(x.func, ast.Attribute) and x.func.attr in MUTATORS
+                                      and isinstance(x.func.value, ast.Name) and x.func.value.id == alias) for x in ast.walk(f))
+                    if not mutated and _readonly_uses(f, alias, 1):
+                        continue
                 return False
     return True
 
@@ -791,10 +813,12 @@ def subst_new_constants(tree, new_consts):
 
 
 # ------------------------------------------------------------------ driver
-VIEWS = [('helpers', ()), ('nested', ('nested',)), ('flat', ('flat',))]
+# (name, control-flow form or None, rewrite .get lookups as membership tests)
+VIEWS = [('helpers', (None, False)), ('nested', ('nested', False)), ('flat', ('flat', False)),
+         ('lookups', (None, True)), ('lookups+nested', ('nested', True)), ('lookups+flat', ('flat', True))]
 
 
-def normalise_source(src, rel, baseline, cf=None):
+def normalise_source(src, rel, baseline, cf=None, lookups=True):
     tree = ast.parse(src)
     base = (baseline or {}).get(rel)
     fns, consts = module_names(tree)
@@ -808,7 +832,8 @@ def normalise_source(src, rel, baseline, cf=None):
     before = ast.dump(tree)
     PercentFormats().visit(tree)
     MembershipDisplays().visit(tree)
-    get_to_membership(tree)
+    if lookups:
+        get_to_membership(tree)
     if cf:
         apply_cf(tree, cf)
     if ast.dump(tree) != before:
@@ -817,7 +842,7 @@ def normalise_source(src, rel, baseline, cf=None):
     return (ast.unparse(tree) + '\n') if changed else None
 
 
-def make_view(repo_root, cf=None):
+def make_view(repo_root, cf=None, lookups=True):
     """scratch copy of the tree with every athlib/*.py normalised; returns (dir, [files changed])"""
     baseline = load_baseline()
     d = tempfile.mkdtemp(prefix='athlib-view-')
@@ -838,7 +863,7 @@ def make_view(repo_root, cf=None):
             rel = os.path.relpath(p, d)
             try:
                 s = open(p, encoding='utf-8').read()
-                s2 = normalise_source(s, rel, baseline, cf)
+                s2 = normalise_source(s, rel, baseline, cf, lookups)
             except (SyntaxError, RecursionError, ValueError):
                 continue
             if s2 is not None:
